@@ -1014,6 +1014,7 @@ def _inep_run(rig, script):
         dp = None                     # data packet in progress on tx
         lost_last = False
         last_what = None
+        prev_erdy = False
         quiet = 0
         ctx.set(gen.address, INEP_ADDR)
         maxc = script.get("max_cycles", 3000)
@@ -1162,6 +1163,15 @@ def _inep_run(rig, script):
                 last_what = ack["what"]
                 hstate = "wait" if ack["nump"] >= 1 else "idle"
                 decision = None
+            # the endpoint's request strobes as such (send_nrdy is a one-cycle pulse per token, send_erdy a level)
+            if ctx.get(ho.send_nrdy):
+                events.append({"e": "tp", "view": "strobe", "t": t, "kind": "nrdy", "want": "nrdy",
+                               "epn": int(ctx.get(ho.endpoint_number)) & 15, "addr": INEP_ADDR})
+            erdy_level = bool(ctx.get(ho.send_erdy))
+            if erdy_level and not prev_erdy:
+                events.append({"e": "tp", "view": "strobe", "t": t, "kind": "erdy", "want": "erdy",
+                               "epn": int(ctx.get(ho.endpoint_number)) & 15, "addr": INEP_ADDR})
+            prev_erdy = erdy_level
             # requests accepted by the generator
             if not gen_busy:
                 for kind, sig in (("nrdy", ho.send_nrdy), ("erdy", ho.send_erdy)):
@@ -1452,6 +1462,33 @@ def _inep_sweeps(mps=8):
                     dict(base, hq={"until": T + d}, words=W(full, at=T + 5), avoid=A - {"complete_during_tp"},
                          host=[{"k": "poll", "at": T}, {"k": "poll_after_erdy", "d": 3, "timeout": None},
                                {"k": "accept", "d": 3, "nump": 0}]), 0))
+    # S6: the FIRST IN request at every cycle from well before to well after the cycle in which the first buffer
+    #     completes (no NRDY outstanding), producer at 1 word/cycle and slower, with and without `last`;
+    # S7: the same for a later IN request, after an acknowledged packet (NumP=0) while the next buffer is filling.
+    nwords = mps // 4
+    for rate in (0, 2):
+        for shape, data, last in (("nolast", full, False), ("last", full[:mps - 2], True)):
+            nw = (len(data) + 3) // 4
+            ws0 = [{"bytes": data[i:i + 4], "last": last and i + 4 >= len(data), "gap": rate} for i in range(0, len(data), 4)]
+            start = 6
+            done_at = start + (nw - 1) * (rate + 1) + rate            # cycle in which the completing word is accepted
+            for d in range(-6, 8):
+                ws = [dict(w) for w in ws0]
+                ws[0]["gap"] = 0
+                ws[0]["at"] = start + rate
+                out.append(("first_request_at_%+d_of_completion_rate%d_%s" % (d, rate, shape),
+                            dict(base, hq="fast", words=ws, avoid=A - {"complete_during_tp"},
+                                 host=[{"k": "poll", "at": done_at + d}, {"k": "poll_after_erdy", "d": 3, "timeout": None},
+                                       {"k": "accept", "d": 3, "nump": 0}]), 3))
+                ws2 = [dict(w) for w in ws0]
+                ws2[0]["gap"] = 0
+                ws2[0]["at"] = 40 + rate
+                done2 = 40 + (nw - 1) * (rate + 1) + rate
+                out.append(("later_request_at_%+d_of_completion_rate%d_%s" % (d, rate, shape),
+                            dict(base, hq="fast", words=W(nxt) + ws2, avoid=A - {"complete_during_tp", "ack_without_next"},
+                                 host=[{"k": "poll", "at": 12}, {"k": "accept", "at": 24, "nump": 0},
+                                       {"k": "poll", "at": done2 + d}, {"k": "poll_after_erdy", "d": 3, "timeout": None},
+                                       {"k": "accept", "d": 3, "nump": 0}]), 3))
     # S5: tx.ready low for 1 / 2 cycles exactly at every beat of a 2- and 3-beat packet (mps 8 / 12 handled by caller)
     for shape, data, last in (("full", full, False), ("short", full[:mps - 2], True)):
         for nb in range((len(data) + 3) // 4):
@@ -1509,6 +1546,8 @@ def _inep_classify(trace, matched, status, meta):
                 return {"clause": status, "pattern": "request_in_acknowledging_ack_without_buffered_packet_dropped"}
             if last_ack.get("what") == "poll" and last_ack.get("during_erdy"):
                 return {"clause": status, "pattern": "poll_while_erdy_is_being_sent_dropped"}
+    if status == "erdy_missing" and meta.get("view") == "strobe":
+        return {"clause": status, "pattern": "endpoint_never_requested_the_erdy"}
     if status == "erdy_missing":
         nrdys = [e for e in ours if e["e"] == "tp" and e["kind"] == "nrdy"]
         if nrdys and any(e["e"] == "w" and e["completes"] and e.get("while_tp") and e["t"] >= nrdys[-1]["t"] for e in ours):
@@ -1589,17 +1628,22 @@ def check_C46(rep):
         epn = rng.choice([0, 3, 15])
         sc = _inep_random_script(rng, mps, True)
         ev, info = _inep_run(rig_for(epn, mps), sc)
-        record(ev, info, epn, mps, "random", "clean")
+        record(ev, info, epn, mps, "random", "clean", views=("req", "wire", "strobe"))
     if not quick:                                         # one long saturating run at the real default packet size
         sc = _inep_random_script(rng, 1024, True)
         ev, info = _inep_run(rig_for(1, 1024), dict(sc, max_cycles=12000))
         record(ev, info, 1, 1024, "random-1024", "clean")
-    for mps in (8, 12):                                   # systematic offset sweeps (verdict: accepted or a listed finding)
+    for mps in (8, 12, 16) if quick else (8, 12, 16, 1024):   # systematic offset sweeps (accepted, or a listed finding)
         for name, sc, epn in _inep_sweeps(mps):
-            if mps == 12 and not (name.startswith("tx_stall") or name.startswith("ack_numP1")):
+            around_completion = name.startswith("first_request") or name.startswith("later_request")
+            if mps == 12 and not (name.startswith("tx_stall") or name.startswith("ack_numP1") or around_completion):
                 continue
-            ev, info = _inep_run(rig_for(epn, mps), sc)
-            record(ev, info, epn, mps, "offset-sweep", "sweep", views=("req",), name=name)
+            if mps >= 16 and not around_completion:
+                continue
+            ev, info = _inep_run(rig_for(epn, mps), dict(sc, max_cycles=6000))
+            # "strobe" = the endpoint's own requests (also those the busy generator cannot take): the endpoint must
+            # ask for the ERDY; "req" = what the generator accepted: the ERDY must actually go out
+            record(ev, info, epn, mps, "offset-sweep", "sweep", views=("strobe", "req"), chkep=True, name=name)
     for name, sc, view, chkep, epn in _inep_witnesses(8):
         ev, info = _inep_run(rig_for(epn, 8), sc)
         record(ev, info, epn, 8, "directed", "witness", views=(view,), chkep=chkep, name=name)
